@@ -89,7 +89,9 @@ pub(crate) trait MessageType: Sized {
             let headers = self.headers_mut();
 
             for idx in raw_headers.iter() {
-                let name = HeaderName::from_bytes(&slice[idx.name.0..idx.name.1]).unwrap();
+                // httparse accepts any token as a name; `HeaderName` additionally caps its length
+                let name = HeaderName::from_bytes(&slice[idx.name.0..idx.name.1])
+                    .map_err(|_| ParseError::Header)?;
 
                 // SAFETY: httparse already checks header value is only visible ASCII bytes
                 // from_maybe_shared_unchecked contains debug assertions so they are omitted here
